@@ -148,7 +148,7 @@ def same_event(got, want, is_queue):
                 return False
             if a is not None and set(a) != set(b):
                 return False
-        elif f in ("file_bytes", "timestamp"):
+        elif f in ("file_bytes", "timestamp", "runnable", "eof"):
             if a is not b and a != b:
                 return False
         elif a != b:
@@ -177,12 +177,12 @@ def run_tree(root, evspecs):
         expected = {}
         root.obj.startTestRun()
         expect(root, "start", expected)
-        for (si, ti, has_ts, ri, fb) in evspecs:
+        for (si, ti, has_ts, ri, fb, runnable, eof) in evspecs:
             tags = mk_tags(TAGS[ti])
             snapshot = None if tags is None else (type(tags), set(tags))
             ts = "<supplied-ts>" if has_ts else None
-            ev = dict(test_id="id", test_status=STATUSES[si], test_tags=tags, runnable=True, file_name="f",
-                      file_bytes=fb, eof=False, mime_type="m/t", route_code=ROUTES[ri], timestamp=ts)
+            ev = dict(test_id="id", test_status=STATUSES[si], test_tags=tags, runnable=runnable, file_name="f",
+                      file_bytes=fb, eof=eof, mime_type="m/t", route_code=ROUTES[ri], timestamp=ts)
             want_ev = dict(ev, test_tags=None if tags is None else set(tags))
             expect(root, want_ev, expected)
             try:
@@ -211,7 +211,7 @@ def run_tree(root, evspecs):
 
 
 def h_tree(o0: int, o1: int, o2: int, o3: int, o4: int, budget: int, depth: int,
-           si: int, ti: int, has_ts: bool, ri: int, fb: bytes) -> bool:
+           si: int, ti: int, has_ts: bool, ri: int, fb: bytes, runnable: bool, eof: bool) -> bool:
     """
     pre: 0 <= o0 < 16 and 0 <= o1 < 16 and 0 <= o2 < 16 and 0 <= o3 < 16 and 0 <= o4 < 16
     pre: 1 <= budget <= 5 and 0 <= depth <= 3 and 0 <= si < 4 and 0 <= ti < 5 and 0 <= ri < 2 and len(fb) <= 1
@@ -229,9 +229,9 @@ def h_tree(o0: int, o1: int, o2: int, o3: int, o4: int, budget: int, depth: int,
     v = dict(tree=describe(root), status=STATUSES[s], tags=TAGS[t], ts=ht, route=ROUTES[r])
     if ch.excluded(v):
         return True
-    problems = run_tree(root, [(s, t, ht, r, fb)])
+    problems = run_tree(root, [(s, t, ht, r, fb, runnable, eof)])
     ch.LAST["problems"] = problems
-    return ch.finish(not problems, v, nontrivial=len(st["ops"]) >= 2, sym=("file_bytes",))
+    return ch.finish(not problems, v, nontrivial=len(st["ops"]) >= 2, sym=("file_bytes", "runnable", "eof"))
 
 
 SEQ_EV = [(1, 1, False, 0), (2, 0, True, 1), (0, 4, False, 0)]
@@ -256,7 +256,7 @@ def h_seq(o0: int, o1: int, o2: int, o3: int, budget: int, depth: int, e0: int, 
     v = dict(tree=describe(root), events=tuple(es))
     if ch.excluded(v):
         return True
-    problems = run_tree(root, [SEQ_EV[e] + (b"z",) for e in es])
+    problems = run_tree(root, [SEQ_EV[e] + (b"z", True, False) for e in es])
     ch.LAST["problems"] = problems
     return ch.finish(not problems, v, nontrivial=len(st["ops"]) >= 2 and nn >= 2)
 
@@ -284,16 +284,16 @@ def _rebuild(ops, budget, depth):
         ch.FIX = saved
 
 
-def _describe_tree(o0, o1, o2, o3, o4, budget, depth, si, ti, has_ts, ri, fb):
+def _describe_tree(o0, o1, o2, o3, o4, budget, depth, si, ti, has_ts, ri, fb, runnable=True, eof=False):
     root = _rebuild([o0, o1, o2, o3, o4], budget, depth)
-    return {"tree": describe(root), "event": dict(status=STATUSES[si], tags=TAGS[ti], ts=has_ts, route=ROUTES[ri]),
-            "problems": run_tree(root, [(si, ti, has_ts, ri, fb)])}
+    return {"tree": describe(root), "event": dict(status=STATUSES[si], tags=TAGS[ti], ts=has_ts, route=ROUTES[ri], runnable=runnable, eof=eof),
+            "problems": run_tree(root, [(si, ti, has_ts, ri, fb, runnable, eof)])}
 
 
 def _describe_seq(o0, o1, o2, o3, budget, depth, e0, e1, e2, n):
     root = _rebuild([o0, o1, o2, o3], budget, depth)
     return {"tree": describe(root), "events": [e0, e1, e2][:n],
-            "problems": run_tree(root, [SEQ_EV[e] + (b"z",) for e in [e0, e1, e2][:n]])}
+            "problems": run_tree(root, [SEQ_EV[e] + (b"z", True, False) for e in [e0, e1, e2][:n]])}
 
 
 HARNESSES = [
@@ -301,11 +301,11 @@ HARNESSES = [
             bounds={"quick": "every decorator tree with <= 3 nodes (depth <= 2) over {recording sink, StreamFailFast, StreamToQueue('0'), "
                              "TimestampingStreamResult, CopyStreamResult with 1..3 targets, StreamTagger (+x | -t | +u-t) with 1..3 targets} "
                              "x one status event: status {None, fail, success, uxsuccess} x tags {None, set{t}, frozenset{t}, set(), "
-                             "set{x,t}} x timestamp supplied or not x route code {None, 1} x a symbolic file chunk; clock stubbed",
+                             "set{x,t}} x timestamp supplied or not x route code {None, 1} x a symbolic file chunk x symbolic runnable / eof flags; clock stubbed",
                     "thorough": "<= 4 nodes (depth <= 3)"},
-            rule="non-trivial = at least one decorator above a leaf", sym=("fb",),
+            rule="non-trivial = at least one decorator above a leaf", sym=("fb", "runnable", "eof"),
             twin_fix={"budget": 3, "depth": 2, "o0": 5, "ti": 1},
-            fidelity=lambda seed: [(5, 0, 0, 0, 0, 3, 2, s, t, ts, r, b"q") for s in range(4) for t in (0, 3) for ts in (False, True) for r in (0, 1)],
+            fidelity=lambda seed: [(5, 0, 0, 0, 0, 3, 2, s, t, ts, r, b"q", r == 0, ts) for s in range(4) for t in (0, 3) for ts in (False, True) for r in (0, 1)],
             observe=_describe_tree, describe=_describe_tree,
             assumptions=["datetime.datetime.now in testtools.testresult.real is stubbed with a recognisable token"]),
     Harness("seq", h_seq, _seq_shards,
